@@ -378,6 +378,8 @@ pub struct PublicView {
     pub vis: BTreeMap<String, Vec<Id>>,
     /// accessor disagreements found while reading (C17)
     pub disagreements: Vec<String>,
+    /// text container key -> chunks of `diff()`: (visible ids of the chunk, attributes sorted by key as (key, value text))
+    pub rich: BTreeMap<String, Vec<(Vec<Id>, Vec<(String, String)>)>>,
 }
 
 fn branch_prefix(out: &Out) -> Option<(String, Id)> {
@@ -484,7 +486,9 @@ pub fn walk_text<T: ReadTxn>(txn: &T, t: &TextRef, prefix: &str, tags: &Tags, pv
     let mut ids = Vec::new();
     let mut concat = String::new();
     let mut others = 0u32;
+    let mut chunks = Vec::new();
     for d in t.diff(txn, YChange::identity) {
+        let from = ids.len();
         match &d.insert {
             Out::Any(Any::String(s)) => {
                 concat.push_str(s);
@@ -495,7 +499,14 @@ pub fn walk_text<T: ReadTxn>(txn: &T, t: &TextRef, prefix: &str, tags: &Tags, pv
                 ids.push(walk_value(txn, other, tags, pv, depth + 1))
             }
         }
+        let mut attrs: Vec<(String, String)> = match &d.attributes {
+            Some(a) => a.iter().map(|(k, v)| (k.to_string(), any_tag(v))).collect(),
+            None => Vec::new(),
+        };
+        attrs.sort();
+        chunks.push((ids[from..].to_vec(), attrs));
     }
+    pv.rich.insert(format!("{}|", prefix), chunks);
     let s = t.get_string(txn);
     if s != concat {
         pv.disagreements.push(format!("text {}: get_string {:?} != diff concat {:?}", prefix, s, concat));
@@ -561,7 +572,7 @@ pub fn public<T: ReadTxn>(txn: &T, roots: &[(String, RootKind)], tags: &Tags) ->
 }
 
 pub fn public_in<T: ReadTxn>(txn: &T, roots: &[(String, RootKind)], tags: &Tags, kind: Option<yrs::OffsetKind>) -> PublicView {
-    let mut pv = PublicView { kind, vis: BTreeMap::new(), disagreements: Vec::new() };
+    let mut pv = PublicView { kind, vis: BTreeMap::new(), disagreements: Vec::new(), rich: BTreeMap::new() };
     for (name, kind) in roots {
         match kind {
             RootKind::Text => {
@@ -593,6 +604,14 @@ impl PublicView {
         let mut m = JMap::new();
         for (k, v) in &self.vis {
             m.insert(k.clone(), idsv(v));
+        }
+        Value::Object(m)
+    }
+    pub fn rich_json(&self) -> Value {
+        let mut m = JMap::new();
+        for (k, chunks) in &self.rich {
+            let v: Vec<Value> = chunks.iter().map(|(ids, attrs)| json!([idsv(ids), attrs.iter().map(|(k, v)| json!([k, v])).collect::<Vec<_>>()])).collect();
+            m.insert(k.clone(), Value::Array(v));
         }
         Value::Object(m)
     }
@@ -647,11 +666,20 @@ pub fn pending<T: ReadTxn>(txn: &T) -> Pending {
 
 /// Full observation record of one replica.
 pub fn observe<T: ReadTxn>(txn: &T, roots: &[(String, RootKind)], tags: &Tags) -> Value {
-    observe_in(txn, roots, tags, None)
+    observe_full(txn, roots, tags, None, false)
 }
 
 /// `kind`: the offset kind of the observed document (lengths of texts are then part of the C17 comparison)
 pub fn observe_in<T: ReadTxn>(txn: &T, roots: &[(String, RootKind)], tags: &Tags, kind: Option<yrs::OffsetKind>) -> Value {
+    observe_full(txn, roots, tags, kind, false)
+}
+
+/// `rich`: add the field `rich` (attributed `diff()` chunks of every reachable text container)
+pub fn observe_rich<T: ReadTxn>(txn: &T, roots: &[(String, RootKind)], tags: &Tags, rich: bool) -> Value {
+    observe_full(txn, roots, tags, None, rich)
+}
+
+pub fn observe_full<T: ReadTxn>(txn: &T, roots: &[(String, RootKind)], tags: &Tags, kind: Option<yrs::OffsetKind>, rich: bool) -> Value {
     let s = structural(txn);
     let p = public_in(txn, roots, tags, kind);
     let q = pending(txn);
@@ -659,6 +687,9 @@ pub fn observe_in<T: ReadTxn>(txn: &T, roots: &[(String, RootKind)], tags: &Tags
     let o = v.as_object_mut().unwrap();
     o.insert("pub".into(), p.to_json());
     o.insert("c17".into(), if p.disagreements.is_empty() { json!("ok") } else { json!(p.disagreements.join("; ")) });
+    if rich {
+        o.insert("rich".into(), p.rich_json());
+    }
     o.insert("missing".into(), json!(q.missing_flag));
     o.insert("pend".into(), idsv(&q.pend));
     o.insert("pmiss".into(), idsv(&q.pmiss));
